@@ -97,6 +97,8 @@ def post(ctx, c, rep):
 def run(ctx):
     run_codec(ctx)
     c01.run(ctx, focus='C10', post=post, n_quick=120, n_thorough=3000, force={'udf': '2.60'})
+    # the bridge must stay consistent when a parsed image is edited (link counts, shared data, anchors)
+    c01.run(ctx, focus='C10', post=post, n_quick=80, n_thorough=2000, force={'udf': '2.60'}, reopen_every=5)
 
 
 def replay(ctx, obj):
